@@ -36,6 +36,19 @@ VDOM_FORMS = [
 ]
 
 
+# a HUP (virtualdomains re-read, here with one more line) between the deferral of a virtual-domain recipient and its permanent failure, and
+# before a second message: the notice names the recipients as their senders wrote them, without the prepended tag, whichever copy of the
+# table is in force (added after seeded change C14-M)
+HUP_FORMS = [
+    {"controls": {"me": "me.example\n", "locals": "loc.example\n", "virtualdomains": "virt.example:vuser\n.wild.example:vwild\n"}, "limits": [120, 120],
+     "hup_controls": {"virtualdomains": "virt.example:vuser\n.wild.example:vwild\nother.example:vother\n"},
+     "messages": [{"sender": "s@loc.example", "rcpts": ["nobody@virt.example", "x@sub.wild.example"], "body": "x\n"},
+                  {"sender": "t@loc.example", "rcpts": ["later@virt.example", "y@other.example"], "body": "y\n"}],
+     "scripts": {"0:0": "ZD", "0:1": "ZZD", "1:0": "D", "1:1": "D"}, "bscript": "K", "texts": ["no such user", "mailbox gone\n"], "tape": [],
+     "plan": plan, "actions": ["answer", "inject", "advance", "hup"], "mode": {"kind": "none"}}
+    for plan in (["inject", "answer", "answer", "hup", "inject"], ["inject", "hup", "answer", "answer", "inject", "hup"], ["hup", "inject", "answer", "inject"])]
+
+
 def interrupted_waits():
     """the daemon's blocking wait for its own queueing child (the bounce injection) is interrupted by a signal once - waitpid() returns
     -1/EINTR, nothing was reaped. That is no failure: the notice still goes out exactly once (all clauses in force; added after seeded
@@ -48,7 +61,7 @@ def interrupted_waits():
 
 
 def run(ctx):
-    q.search(ctx, "C14", TAGS, 0, 0, fixed=VDOM_FORMS + interrupted_waits())
+    q.search(ctx, "C14", TAGS, 0, 0, fixed=VDOM_FORMS + HUP_FORMS + interrupted_waits())
     q.search(ctx, "C14", TAGS, 0, 0, sweep={"all": True, "faults_only": True}, fixed=FULLY_SWEPT)
     # every crash point (image kept) of the daemon and its helpers for the same history, then restart: the failures recorded before the crash
     # must still be answered by a notice (only that clause is judged: a crash legitimately repeats an attempt and hence a paragraph)
